@@ -267,14 +267,12 @@ func newEvent(msg, syscall *auparse.AuditMessage) *Event {
 
 	if result, found := data["result"]; found {
 		event.Result = result
-		delete(data, "result")
 	} else {
 		event.Result = "unknown"
 	}
 
 	if ses, found := data["ses"]; found {
 		event.Session = ses
-		delete(data, "ses")
 	}
 
 	if auid, found := data["auid"]; found {
@@ -288,7 +286,11 @@ func newEvent(msg, syscall *auparse.AuditMessage) *Event {
 	// Ignore error because msg.Data() would have produced the same error.
 	event.Tags, _ = msg.Tags()
 
+	// The map returned by Data() is owned by the message and is not modified.
 	for k, v := range data {
+		if k == "result" || k == "ses" {
+			continue
+		}
 		if strings.HasSuffix(k, "uid") || strings.HasSuffix(k, "gid") {
 			addSubjectAttribute(k, v, event)
 		} else if strings.HasPrefix(k, "subj_") {
@@ -427,7 +429,6 @@ func addExecveRecord(execve *auparse.AuditMessage, event *Event) {
 			return
 		}
 
-		delete(data, key)
 		args = append(args, arg)
 	}
 
